@@ -53,7 +53,7 @@ def worker_init():
 
 def generate(tier, seed):
     rng = np.random.default_rng(3000 + seed)
-    n_eos, n_v = (120, 8) if tier == "quick" else (2500, 12)
+    n_eos, n_v = (150, 8) if tier == "quick" else (2500, 12)
     cases = []
     for i in range(n_eos):
         spec = E.random_spec(rng)
@@ -101,7 +101,7 @@ def run_case(case):
     hyd = probe.hyd
     Tn = probe.Tn
     cb = math.sqrt(eos.ref("L", Tn)["csq"])
-    vws, kinds = HY.velocities(rng, hyd, case["nv"], cb)
+    vws, kinds = HY.velocities(rng, hyd, case["nv"], cb, probe)
     viol, classes, keys, rows = [], [], [], []
     is_template_form = spec["family"] in ("bag", "template")
     tol_ode = 30 * rtol * Tn + 4 * atol + 1e-9 * Tn
